@@ -90,6 +90,47 @@ def run(prog, rep):
     rep.rule('R5', 'merge policy loop', floor=4)
     rep.rule('R7', 'shared-store enumerations and writes are scoped to the addressed graph (otherwise the two backends disagree)', floor=30)
     rep.rule('R6', 'no rejection is reachable after a property write (a rejected call changes nothing)', floor=7)
+    rep.rule('R9', 'add_node: the identity of the new node (graph, id, class) cannot be overridden by the caller-supplied properties', floor=2)
+    for spec9 in (nxg.NXPG, 'fim.graph.neo4j_property_graph:Neo4jPropertyGraph'):
+        c9 = prog.cls(spec9)
+        f9 = c9.methods.get('add_node')
+        if f9 is None:
+            raise AnalysisError(f'{c9.name}.add_node vanished')
+        f9 = inline(prog, c9, f9)
+        env9 = local_env(f9)
+        IDENT = {'GRAPH_ID', 'NODE_ID', 'PROP_CLASS', 'GraphID', 'NodeID', 'Class'}
+
+        def ident_keys(e):
+            return {x.attr for x in ast.walk(e) if isinstance(x, ast.Attribute) and x.attr in IDENT} | \
+                   {x.value for x in ast.walk(e) if isinstance(x, ast.Constant) and isinstance(x.value, str) and x.value in IDENT} | \
+                   {k.arg for x in ast.walk(e) if isinstance(x, ast.Call) for k in x.keywords if k.arg in IDENT}
+        # statements through which the caller's properties enter what is stored (tests on `props` excluded)
+        merges = [st for st in walk_no_nested(f9) if isinstance(st, (ast.Assign, ast.Expr, ast.AugAssign)) and
+                  any(isinstance(x, ast.Name) and x.id == 'props' and isinstance(x.ctx, ast.Load) for x in ast.walk(st.value))]
+        if not merges:
+            raise AnalysisError(f'{c9.name}.add_node: merge of the caller properties not found')
+        for mc in merges:
+            arg = mc.value
+            filtered = len(ident_keys(arg)) >= 3
+            later = [st for st in walk_no_nested(f9) if isinstance(st, (ast.Assign, ast.Expr)) and st.lineno > mc.lineno and len(ident_keys(st)) >= 3 and
+                     st is not mc]
+            ok9 = filtered or bool(later)
+            rep.instance('R9', f'{c9.name}.add_node: {norm(mc, 70)}: identity keys filtered out of the caller properties: {filtered}; identity stamped afterwards: {bool(later)}')
+            if not ok9:
+                rep.violation('R9', loc(c9.module, mc), f'{c9.name}.add_node', f'{norm(mc, 70)} overrides the identity just set',
+                              'the caller-supplied properties are applied over the GraphID / NodeID / Class the method has just set: properties '
+                              'read from another node (which carry those keys) give the new node the class, id or even graph of that node - the '
+                              'class "can never be changed through the API" and node ids stay unique only if add_node decides them')
+    rep.rule('R8', 'library exceptions are constructed with every required argument (otherwise the rejection surfaces as a TypeError on that backend only)', floor=150)
+    from ..lints import exception_ctor_arity
+    bad_ctor, n_ctor = exception_ctor_arity(prog)
+    rep.instance('R8', f'{n_ctor} constructions of library exception classes checked against their __init__ signatures')
+    for i_ in range(n_ctor - 1):
+        rep.instance('R8', f'exception construction #{i_ + 2}')
+    for m_, fq_, call_, cname_, missing_ in bad_ctor:
+        rep.violation('R8', loc(m_, call_), fq_, f'{cname_}(...) without {missing_}',
+                      f'{cname_} requires {missing_}; this construction omits it, so reaching the statement raises TypeError instead of '
+                      f'{cname_}: the backend that contains it answers the same call with a different exception class than the other one')
 
     nxpg = prog.cls(nxg.NXPG)
     mod = nxpg.module
@@ -471,6 +512,9 @@ def run(prog, rep):
 
 NX = 'fim/graph/networkx_property_graph.py'
 MUTANTS = [
+    {'name': 'query-exception-without-node-id', 'file': 'fim/graph/networkx_property_graph.py', 'rule': 'R8',
+     'find': "raise PropertyGraphQueryException(graph_id=self.graph_id, node_id=node_id,\n                                              msg=\"Unable to find graph\")",
+     'replace': "raise PropertyGraphQueryException(graph_id=self.graph_id,\n                                              msg=\"Unable to find graph\")"},
     {'name': 'merge-policy-may-overwrite-identity', 'file': 'fim/graph/networkx_property_graph.py', 'rule': 'R5',
      'find': "                if k in merge_properties and k not in (ABCPropertyGraph.GRAPH_ID, ABCPropertyGraph.NODE_ID,\n                                                       ABCPropertyGraph.PROP_CLASS):", 'replace': "                if k in merge_properties:"},
     {'name': 'contraction-left-on-links', 'file': 'fim/graph/networkx_property_graph.py', 'rule': 'R5',
